@@ -133,7 +133,7 @@ func (w *cw) prep(op string) func() string {
 		return func() string {
 			snap := w.S.VerifSnapshot(false)
 			before := drv.RotationsDone.Load()
-			drv.SetClock(snap.Offset + 3201 + uint32(before%7))
+			setClock(snap.Offset + 3201 + uint32(before%7))
 			done := make(chan int, 1)
 			go func() { done <- drv.StepRotation() }()
 			dl := time.Now().Add(10 * time.Second)
@@ -210,7 +210,7 @@ func (w *cw) trigger(site string, variant int, yUDP uint64) func() string {
 	case "migrate": // migrate.beforeLock
 		return func() string {
 			snap := w.S.VerifSnapshot(false)
-			drv.SetClock(snap.Offset + 3201)
+			setClock(snap.Offset + 3201)
 			return fmt.Sprintf("rotations=%d", drv.StepRotation())
 		}
 	case "wt":
@@ -338,13 +338,18 @@ func runDelayCell(dir string, spec dcellSpec, rep int, seed int64, r *ev.Result)
 	defer w.shutdown()
 	if !registered && fillUnregisteredArchive(spec) {
 		// an archived (empty) week so that archived-week reads are possible
-		drv.SetClock(3201)
+		setClock(3201)
 		drv.StepRotation()
 	}
 
 	yUDP := uint64(0)
 	if spec.Op == "report" || spec.Op == "equivocate" {
 		yUDP = 1
+	}
+	if strings.HasPrefix(spec.Site, "wt.") && spec.Op == "rotate" {
+		// the round fetches its datapoint for "now" before the rotation is released (the gated rotator does
+		// not act on the clock by itself): a value stored through a stale offset then lies in the future half
+		setClock(w.S.VerifSnapshot(false).Offset + 3201)
 	}
 	yf := w.prep(spec.Op)
 	tf := w.trigger(spec.Site, rep+spec.Idx, yUDP)
@@ -443,7 +448,7 @@ func runCatchupCell(dir string, spec dcellSpec, rep int, rng *rand.Rand, r *ev.R
 		r.Inconc("delay cell " + name + ": close failed: " + err.Error())
 		return
 	}
-	drv.SetClock(now2)
+	setClock(now2)
 	var b []byte
 	if spec.Op == "report" {
 		b = w.A.Report(slot, 4242).Bytes()
